@@ -145,7 +145,8 @@ def run_pkgs_dump(dirs, dump_dir, kinds, release=False, extra_env=None, timeout=
         if not kinds:
             env = {"VERIF_DUMP": ""}
         if extra_env: env.update(extra_env)
-        rc, o = rust.run(binp, (["--release"] if release else []) + [d], timeout=timeout, env=env)
+        rel = (d in release) if isinstance(release, (set, list, tuple)) else bool(release)
+        rc, o = rust.run(binp, (["--release"] if rel else []) + [d], timeout=timeout, env=env)
         res = None
         for line in o.split("\n"):
             line = line.strip()
